@@ -42,6 +42,14 @@ def main():
     rec("random_init_haversine", X, Y, init="random", output_metric="haversine", n_jobs=-1)
     rec("densmap", X, None, densmap=True, n_jobs=-1)
     rec("pca_init", X, Y, init="pca", n_jobs=2)
+    # many graph components (8 well separated clusters, small n_neighbors): the spectral initialisers lay the components out with a
+    # separate eigenproblem; nothing there may draw from NumPy's global generator (which differs from process to process)
+    rc = np.random.RandomState(seed + 5)
+    Xc = np.concatenate([rc.normal(size=(22, 4)) * 0.3 + rc.normal(size=4) * 30 for _ in range(8)]).astype(np.float32)
+    np.random.seed(None)          # the global generator is in an arbitrary, process-specific state
+    np.random.random_sample(int.from_bytes(__import__("os").urandom(1), "little") + 1)
+    rec("many_components_spectral", Xc, None, n_neighbors=6, n_jobs=-1)
+    rec("many_components_tswspectral", Xc, None, n_neighbors=6, n_jobs=1, init="tswspectral")
     if tier == "thorough":
         rec("cosine_exact", X, Y, metric="cosine", n_jobs=-1)
         rec("supervised", X, None, n_jobs=-1) if False else None
